@@ -73,8 +73,8 @@ def probe(draw):
         kind = draw(st.sampled_from(["qp_order", "rc_intra"]))
         if kind == "qp_order":
             a, b = draw(st.integers(0, 62)), draw(st.integers(0, 63))
-            return dict(set={"min_qp_allowed": a, "max_qp_allowed": b, "rate_control_mode": draw(st.sampled_from([0, 1]))}, pair=kind)
-        rc = draw(st.sampled_from([0, 1]))
+            return dict(set={"min_qp_allowed": a, "max_qp_allowed": b, "rate_control_mode": draw(st.sampled_from([0, 1, 1, 2, 2]))}, pair=kind)
+        rc = draw(st.sampled_from([0, 1, 2]))
         ip = draw(st.sampled_from([-2, -1, 0, 1, 254, 255, 256, 257, 1000, 2**31 - 2]))
         return dict(set={"rate_control_mode": rc, "intra_period_length": ip}, pair=kind)
     f = draw(st.sampled_from(PROBE_FIELDS))
